@@ -63,6 +63,13 @@ CLAIMED["C12"] = dict(
    technique="contract-based deductive verification with map views, recursive specification functions unfolded per loop step, ghost registry obligations at generated sinks",
    design="5.C12")
 
+CLAIMED["C05"] = dict(
+   level="proof",
+   text="Contracts on every CSS sanitiser against specification languages written from CSS Syntax 3 and the property text (css.lang: CSS_NAME_SAFE; CSS_VALUE_SAFE = top-level characters, complete string tokens, url() calls with relative / http / https / mailto arguments; no ';', braces, other functions, '<', escapes or comment openers at top level). Regex validators (SanitizeCSSProperty incl. lower-casing, sanitizeEnum, sanitizeRegular): MatchString = membership in the language of the pattern literal (re-derived from the source on each run, `$` under `*` handled exactly) + an inclusion lemma decided for all strings by automaton emptiness. Code validators (sanitizeFontFamily, sanitizeBackgroundImage, urlIsSafe): loop contracts over the comma-separated parts (quantified invariant, TrimSpace / HasPrefix / TrimPrefix / ContainsAny / url.Parse by assumed contracts, the constant prefix table unrolled), closing lemma PART (\",\" PART)* ⊆ CSS_VALUE_SAFE. Dispatcher SanitizeCSSValue: call through the function table is case-split over every function stored in it (all must have a contract). Wrappers: SanitizeCSS, templ.SanitizeCSS (one declaration name:value;), processStringKV / processStringMap / processSafeCSSPropertyMap (every write is the escaped sanitised name/value). Two genuine defects found by failing lemmas, replayed on the real code, and repaired (font-family, background-image).",
+   note="govc + solvers; css.lang is my formalisation (sanity examples incl. every value the repository's tests expect to pass); byte-level translation of Go regexps (non-ASCII members of negated classes over-approximated); assumed library contracts (strings.Split join fact, TrimSpace, url.Parse scheme detection, ToLower on ASCII); plain style strings are CSS-string-escaped by design and outside the property; reflection-based cases of sanitizeStyleAttributeValue not under contract",
+   technique="contract-based deductive verification: language postconditions, code-derived regular languages, inclusion lemmas, loop invariants over Split parts; lemma witnesses replayed on the real sanitisers",
+   design="5.C05")
+
 NA = {
  "C02": "compiler correctness: needs a formal semantics of templ and of the emitted Go subset; no per-function contract can state 'denotes' without restating the generator (locally expressible parts are claimed under C01/C03/C04/C10/C16/C07)",
  "C08": "whole-formatter semantic preservation needs the same two semantics plus go/format; not expressible as function contracts",
